@@ -287,7 +287,7 @@ theorem packProps_size_of_unpack {t : Option Nat} {w2 : Bytes} {ps : Props} {res
   · omega
   · simp [packProps, packBody, encVbiOrNil, encVbi, vbiDigits]
 
-theorem ack_decode_wf (v t : Nat) (w : Bytes) (a : Ack) (hb : AllBytes w) (hl : w.length < 268435455)
+theorem ack_decode_wf (v t : Nat) (w : Bytes) (a : Ack) (hb : AllBytes w) (hl : w.length ≤ 268435455)
     (h : unpackAck t v w.length w = .ok a) : WFAck v t a := by
   simp only [unpackAck] at h
   cases hr : readU16 w with
@@ -323,7 +323,7 @@ theorem ack_decode_wf (v t : Nat) (w : Bytes) (a : Ack) (hb : AllBytes w) (hl : 
             simp only at h
             cases h
             have hwf := (unpackProps_wf (some t) w2 ps rest hb2 hu).1
-            have hsz := packProps_size_of_unpack hb2 hu
+            have hsz := unpackProps_size (some t) w2 ps rest hb2 hu
             refine ⟨rfl, hpid, hc, ?_, ?_⟩
             · rw [if_pos h5]
               refine ⟨fun hn => by simp at hn, fun l hl' => ?_⟩
@@ -333,13 +333,16 @@ theorem ack_decode_wf (v t : Nat) (w : Bytes) (a : Ack) (hb : AllBytes w) (hl : 
             · simp only [ackBody, h5, Option.isSome_some, Bool.or_true, Bool.and_true, decide_true, if_true,
                 List.length_append, writeU16, List.length_cons, List.length_nil]
               simp only [List.length_cons] at hlen
-              omega
+              rcases hsz with hsz | ⟨_, hps, _⟩
+              · omega
+              · subst hps
+                simp [packProps, packBody, encVbiOrNil, encVbi, vbiDigits]
       · rw [if_neg h5] at h
         cases h
         refine ⟨rfl, hpid, by simp, ?_, by simp [ackBody, writeU16, h5]⟩
         rw [if_neg h5]; exact ⟨rfl, rfl⟩
 
-theorem pubrel_decode_wf (w : Bytes) (a : Ack) (hb : AllBytes w) (hl : w.length < 268435455)
+theorem pubrel_decode_wf (w : Bytes) (a : Ack) (hb : AllBytes w) (hl : w.length ≤ 268435455)
     (h : unpackPubrel w.length w = .ok a) : WFPubrel a := by
   simp only [unpackPubrel] at h
   cases hr : readU16 w with
@@ -370,7 +373,7 @@ theorem pubrel_decode_wf (w : Bytes) (a : Ack) (hb : AllBytes w) (hl : w.length 
           simp only at h
           cases h
           have hwf := (unpackProps_wf (some tPUBREL) w2 ps rest hb2 hu).1
-          have hsz := packProps_size_of_unpack hb2 hu
+          have hsz := unpackProps_size (some tPUBREL) w2 ps rest hb2 hu
           refine ⟨rfl, hpid, hc, fun hn => by simp at hn, fun l hl' => ?_, ?_⟩
           · simp only [Option.some.injEq] at hl'
             subst hl'
@@ -378,7 +381,10 @@ theorem pubrel_decode_wf (w : Bytes) (a : Ack) (hb : AllBytes w) (hl : w.length 
           · simp only [pubrelBody, Option.isSome_some, Bool.or_true, if_true,
               List.length_append, writeU16, List.length_cons, List.length_nil]
             simp only [List.length_cons] at hlen
-            omega
+            rcases hsz with hsz | ⟨_, hps, _⟩
+            · omega
+            · subst hps
+              simp [packProps, packBody, encVbiOrNil, encVbi, vbiDigits]
 
 /-! ### PUBLISH -/
 
@@ -1885,5 +1891,338 @@ theorem connect_decode_wf (w : Bytes) (c : Connect) (hb : AllBytes w) (hl : w.le
                             List.length_nil, writeU16]
                           simp only [List.length_cons] at hlen1 hlen4
                           omega
+
+/-! ### all packet types together -/
+
+/-- well-formed packet value for reader version `v`: exactly the values `ReadPacket` can return -/
+def WF (v : Nat) : Packet → Prop
+  | .connect c => WFConnect c
+  | .connack c => WFConnack c
+  | .publish p => WFPublish v p
+  | .puback a => WFAck v tPUBACK a
+  | .pubrec a => WFAck v tPUBREC a
+  | .pubrel a => WFPubrel a
+  | .pubcomp a => WFAck v tPUBCOMP a
+  | .subscribe s => WFSubscribe v s
+  | .suback s => WFSuback v s
+  | .unsubscribe u => WFUnsubscribe v u
+  | .unsuback s => WFUnsuback v s
+  | .pingreq => True
+  | .pingresp => True
+  | .disconnect d => WFDisconnect v d
+  | .auth a => WFAuth a
+
+theorem publish_flags (dup retain : Bool) (qos : Nat) (hq : qos ≤ 2) :
+    b2n dup 8 + b2n retain 1 + qos * 2 < 16 ∧ bit (b2n dup 8 + b2n retain 1 + qos * 2) 3 = dup
+      ∧ (b2n dup 8 + b2n retain 1 + qos * 2) / 2 % 4 = qos
+      ∧ decide ((b2n dup 8 + b2n retain 1 + qos * 2) % 2 = 1) = retain := by
+  have : qos = 0 ∨ qos = 1 ∨ qos = 2 := by omega
+  rcases this with rfl | rfl | rfl <;> cases dup <;> cases retain <;> simp [b2n, bit]
+
+/-- writer then reader for a framed body, given what the plan computed from the fixed header does on it -/
+theorem readPacket_of_run (t fl v : Nat) (body ext : Bytes) (p : Packet)
+    (ht : t < 16) (hfl : fl < 16) (hlen : body.length < 268435456)
+    (hrun : runPlan body.length (body ++ ext) (planOf t fl body.length v) = { res := .ok p, rest := ext }) :
+    ∃ bs, frame t fl body = .ok bs ∧ readPacket v (bs ++ ext) = { res := .ok p, rest := ext } := by
+  refine ⟨_, frame_eq t fl body hlen, ?_⟩
+  rw [readPacket_frame t fl body ext v ht hfl hlen]
+  exact hrun
+
+/-- `encode_decode`: a well-formed packet value packs, and `ReadPacket` reads the bytes back to the same value,
+    consuming exactly those bytes -/
+theorem encode_decode_all (v : Nat) (hv : v = v31 ∨ v = v311 ∨ v = v5) (p : Packet) (h : WF v p) (ext : Bytes) :
+    ∃ bs, pack p = .ok bs ∧ readPacket v (bs ++ ext) = { res := .ok p, rest := ext } := by
+  cases p with
+  | connect c =>
+    obtain ⟨b, hb, hbl, hdec⟩ := connect_encode_decode c h
+    simp only [pack, bodyOf, hb, Except.map]
+    exact readPacket_of_run tCONNECT 0 v b ext _ (by decide) (by omega) hbl
+      (by simp [planOf, runPlan, withWindow_append, tCONNECT, hdec, Except.map])
+  | connack c =>
+    have hdec := connack_encode_decode c h
+    simp only [pack, bodyOf]
+    exact readPacket_of_run tCONNACK 0 v _ ext _ (by decide) (by omega) h.2.2.2
+      (by simp [planOf, runPlan, withWindow_append, tCONNACK, tCONNECT, hdec, Except.map])
+  | publish pb =>
+    have hdec := publish_encode_decode v pb h
+    obtain ⟨hf1, hf2, hf3, hf4⟩ := publish_flags pb.dup pb.retain pb.qos h.2.1
+    simp only [pack, bodyOf]
+    refine readPacket_of_run tPUBLISH (publishFlags pb) v _ ext _ (by decide) hf1 h.2.2.2.2.2.2.2.2 ?_
+    have hq0 : (decide (pb.qos = 0) && pb.dup) = false := by
+      by_cases hq : pb.qos = 0
+      · simp [hq, (h.2.2.1 hq).1]
+      · simp [hq]
+    have hq2 : ¬ pb.qos > 2 := by have := h.2.1; omega
+    have hf4' : decide ((b2n pb.dup 8 + b2n pb.retain 1) % 2 = 1) = pb.retain := by
+      cases pb.dup <;> cases pb.retain <;> simp [b2n]
+    simp only [planOf, tPUBLISH, tCONNECT, tCONNACK, publishFlags, hf2, hf3, hf4]
+    simp [hq0, hq2, runPlan, withWindow_append, hdec, hf4', Except.map]
+  | puback a =>
+    have hdec := ack_encode_decode v tPUBACK a h
+    simp only [tPUBACK] at hdec
+    simp only [pack, bodyOf]
+    exact readPacket_of_run tPUBACK 0 v _ ext _ (by decide) (by omega) h.2.2.2.2
+      (by simp [planOf, runPlan, withWindow_append, tPUBACK, tPUBLISH, tCONNECT, tCONNACK, hdec, Except.map])
+  | pubrec a =>
+    have hdec := ack_encode_decode v tPUBREC a h
+    simp only [tPUBREC] at hdec
+    simp only [pack, bodyOf]
+    exact readPacket_of_run tPUBREC 0 v _ ext _ (by decide) (by omega) h.2.2.2.2
+      (by simp [planOf, runPlan, withWindow_append, tPUBREC, tPUBACK, tPUBLISH, tCONNECT, tCONNACK, hdec, Except.map])
+  | pubrel a =>
+    have hdec := pubrel_encode_decode a h
+    simp only [pack, bodyOf]
+    exact readPacket_of_run tPUBREL 2 v _ ext _ (by decide) (by omega) h.2.2.2.2.2
+      (by simp [planOf, runPlan, withWindow_append, tPUBREL, tPUBREC, tPUBACK, tPUBLISH, tCONNECT, tCONNACK, hdec,
+        Except.map])
+  | pubcomp a =>
+    have hdec := ack_encode_decode v tPUBCOMP a h
+    simp only [tPUBCOMP] at hdec
+    simp only [pack, bodyOf]
+    exact readPacket_of_run tPUBCOMP 0 v _ ext _ (by decide) (by omega) h.2.2.2.2
+      (by simp [planOf, runPlan, withWindow_append, tPUBCOMP, tPUBREL, tPUBREC, tPUBACK, tPUBLISH, tCONNECT, tCONNACK,
+        hdec, Except.map])
+  | subscribe s =>
+    have hdec := subscribe_encode_decode v s h
+    simp only [pack, bodyOf]
+    exact readPacket_of_run tSUBSCRIBE 2 v _ ext _ (by decide) (by omega) h.2.2.2.2.2
+      (by simp [planOf, runPlan, withWindow_append, tSUBSCRIBE, tPUBCOMP, tPUBREL, tPUBREC, tPUBACK, tPUBLISH,
+        tCONNECT, tCONNACK, hdec, Except.map])
+  | suback s =>
+    have hdec := suback_encode_decode v s h
+    simp only [pack, bodyOf]
+    exact readPacket_of_run tSUBACK 0 v _ ext _ (by decide) (by omega) h.2.2.2.2
+      (by simp [planOf, runPlan, withWindow_append, tSUBACK, tSUBSCRIBE, tPUBCOMP, tPUBREL, tPUBREC, tPUBACK, tPUBLISH,
+        tCONNECT, tCONNACK, hdec, Except.map])
+  | unsubscribe u =>
+    have hdec := unsubscribe_encode_decode v u h
+    simp only [pack, bodyOf]
+    exact readPacket_of_run tUNSUBSCRIBE 2 v _ ext _ (by decide) (by omega) h.2.2.2.2.2
+      (by simp [planOf, runPlan, withWindow_append, tUNSUBSCRIBE, tSUBACK, tSUBSCRIBE, tPUBCOMP, tPUBREL, tPUBREC,
+        tPUBACK, tPUBLISH, tCONNECT, tCONNACK, hdec, Except.map])
+  | unsuback s =>
+    have hdec := unsuback_encode_decode v hv s h
+    simp only [pack, bodyOf]
+    exact readPacket_of_run tUNSUBACK 0 v _ ext _ (by decide) (by omega) h.2.2.2
+      (by simp [planOf, runPlan, withWindow_append, tUNSUBACK, tUNSUBSCRIBE, tSUBACK, tSUBSCRIBE, tPUBCOMP, tPUBREL,
+        tPUBREC, tPUBACK, tPUBLISH, tCONNECT, tCONNACK, hdec, Except.map])
+  | pingreq =>
+    simp only [pack, bodyOf]
+    exact readPacket_of_run tPINGREQ 0 v [] ext _ (by decide) (by omega) (by simp)
+      (by simp [planOf, runPlan, tPINGREQ, tUNSUBACK, tUNSUBSCRIBE, tSUBACK, tSUBSCRIBE, tPUBCOMP, tPUBREL, tPUBREC,
+        tPUBACK, tPUBLISH, tCONNECT, tCONNACK])
+  | pingresp =>
+    simp only [pack, bodyOf]
+    exact readPacket_of_run tPINGRESP 0 v [] ext _ (by decide) (by omega) (by simp)
+      (by simp [planOf, runPlan, tPINGRESP, tPINGREQ, tUNSUBACK, tUNSUBSCRIBE, tSUBACK, tSUBSCRIBE, tPUBCOMP, tPUBREL,
+        tPUBREC, tPUBACK, tPUBLISH, tCONNECT, tCONNACK])
+  | disconnect d =>
+    have hdec := disconnect_encode_decode v hv d h
+    simp only [pack, bodyOf]
+    exact readPacket_of_run tDISCONNECT 0 v _ ext _ (by decide) (by omega) h.2.2.2
+      (by simp [planOf, runPlan, withWindow_append, tDISCONNECT, tPINGRESP, tPINGREQ, tUNSUBACK, tUNSUBSCRIBE, tSUBACK,
+        tSUBSCRIBE, tPUBCOMP, tPUBREL, tPUBREC, tPUBACK, tPUBLISH, tCONNECT, tCONNACK, hdec, Except.map])
+  | auth a =>
+    simp only [pack, bodyOf]
+    by_cases h0 : (authBody a).length = 0
+    · have hnil : authBody a = [] := List.eq_nil_of_length_eq_zero h0
+      have ha : a = { code := 0, props := none } := by
+        obtain ⟨code, props⟩ := a
+        simp only [authBody] at hnil
+        split at hnil
+        · simp at hnil
+        · rename_i hc
+          simp only [Bool.or_eq_true, bne_iff_ne, ne_eq, Option.isSome_iff_ne_none, not_or, Decidable.not_not] at hc
+          obtain ⟨h1, h2⟩ := hc
+          subst h1; subst h2; rfl
+      rw [hnil, ha]
+      exact readPacket_of_run tAUTH 0 v [] ext _ (by decide) (by omega) (by simp)
+        (by simp [planOf, runPlan, tAUTH, tDISCONNECT, tPINGRESP, tPINGREQ, tUNSUBACK, tUNSUBSCRIBE, tSUBACK,
+          tSUBSCRIBE, tPUBCOMP, tPUBREL, tPUBREC, tPUBACK, tPUBLISH, tCONNECT, tCONNACK])
+    · have hdec := auth_encode_decode a h h0
+      exact readPacket_of_run tAUTH 0 v _ ext _ (by decide) (by omega) h.2.2.2
+        (by simp [planOf, runPlan, withWindow_append, tAUTH, tDISCONNECT, tPINGRESP, tPINGREQ, tUNSUBACK, tUNSUBSCRIBE,
+          tSUBACK, tSUBSCRIBE, tPUBCOMP, tPUBREL, tPUBREC, tPUBACK, tPUBLISH, tCONNECT, tCONNACK, h0, hdec,
+          Except.map])
+
+theorem withWindow_res {n : Nat} {s : Bytes} {e : Err} {f : Bytes → Except Err Packet} {p : Packet}
+    (h : (withWindow n s e f).res = .ok p) : n ≤ s.length ∧ f (s.take n) = .ok p := by
+  by_cases hl : n ≤ s.length
+  · rw [withWindow_ok hl] at h
+    exact ⟨hl, h⟩
+  · simp [withWindow, Nat.not_le.mp hl] at h
+
+theorem map_ok {α : Type} {f : α → Packet} {x : Except Err α} {p : Packet} (h : x.map f = .ok p) :
+    ∃ a, x = .ok a ∧ p = f a := by
+  cases x with
+  | error e => simp [Except.map] at h
+  | ok a => simp only [Except.map, Except.ok.injEq] at h; exact ⟨a, rfl, h.symm⟩
+
+/-- every packet `NewPacket` returns is well-formed -/
+theorem newPacket_wf (pt fl n v : Nat) (hv : v = v31 ∨ v = v311 ∨ v = v5) (s2 : Bytes) (p : Packet) (hb : AllBytes s2)
+    (hn : n ≤ 268435455) (h : (newPacket pt fl n v s2).res = .ok p) : WF v p := by
+  have hw : ∀ {e f}, (withWindow n s2 e f).res = .ok p →
+      AllBytes (s2.take n) ∧ (s2.take n).length = n ∧ (s2.take n).length ≤ 268435455 ∧ f (s2.take n) = .ok p := by
+    intro e f hh
+    obtain ⟨hl, hf⟩ := withWindow_res hh
+    have : (s2.take n).length = n := by simp [List.length_take, Nat.min_eq_left hl]
+    exact ⟨allBytes_take n hb, this, by omega, hf⟩
+  unfold newPacket planOf at h
+  by_cases c1 : pt = tCONNECT
+  · rw [if_pos c1] at h
+    split at h
+    · cases h
+    · obtain ⟨hbw, hlw, hlw2, hf⟩ := hw h
+      obtain ⟨a, ha, rfl⟩ := map_ok hf
+      exact connect_decode_wf _ a hbw hlw2 ha
+  rw [if_neg c1] at h
+  by_cases c2 : pt = tCONNACK
+  · rw [if_pos c2] at h
+    split at h
+    · cases h
+    · obtain ⟨hbw, hlw, hlw2, hf⟩ := hw h
+      obtain ⟨a, ha, rfl⟩ := map_ok hf
+      exact connack_decode_wf _ a hbw hlw2 ha
+  rw [if_neg c2] at h
+  by_cases c3 : pt = tPUBLISH
+  · rw [if_pos c3] at h
+    simp only at h
+    split at h
+    · cases h
+    · rename_i hq0
+      split at h
+      · cases h
+      · rename_i hq2
+        obtain ⟨hbw, hlw, hlw2, hf⟩ := hw h
+        obtain ⟨a, ha, rfl⟩ := map_ok hf
+        refine (publish_decode_wf v _ _ _ _ a hbw hlw2 (by omega) ?_ ha).1
+        intro hq
+        simp only [hq, decide_true, Bool.true_and, Bool.not_eq_true] at hq0
+        exact hq0
+  rw [if_neg c3] at h
+  by_cases c4 : pt = tPUBACK
+  · rw [if_pos c4] at h
+    obtain ⟨hbw, hlw, hlw2, hf⟩ := hw h
+    obtain ⟨a, ha, rfl⟩ := map_ok hf
+    have ha' : unpackAck tPUBACK v (s2.take n).length (s2.take n) = .ok a := by rw [hlw]; exact ha
+    exact ack_decode_wf v tPUBACK _ a hbw hlw2 ha'
+  rw [if_neg c4] at h
+  by_cases c5 : pt = tPUBREC
+  · rw [if_pos c5] at h
+    obtain ⟨hbw, hlw, hlw2, hf⟩ := hw h
+    obtain ⟨a, ha, rfl⟩ := map_ok hf
+    have ha' : unpackAck tPUBREC v (s2.take n).length (s2.take n) = .ok a := by rw [hlw]; exact ha
+    exact ack_decode_wf v tPUBREC _ a hbw hlw2 ha'
+  rw [if_neg c5] at h
+  by_cases c6 : pt = tPUBREL
+  · rw [if_pos c6] at h
+    obtain ⟨hbw, hlw, hlw2, hf⟩ := hw h
+    obtain ⟨a, ha, rfl⟩ := map_ok hf
+    have ha' : unpackPubrel (s2.take n).length (s2.take n) = .ok a := by rw [hlw]; exact ha
+    exact pubrel_decode_wf _ a hbw hlw2 ha'
+  rw [if_neg c6] at h
+  by_cases c7 : pt = tPUBCOMP
+  · rw [if_pos c7] at h
+    obtain ⟨hbw, hlw, hlw2, hf⟩ := hw h
+    obtain ⟨a, ha, rfl⟩ := map_ok hf
+    have ha' : unpackAck tPUBCOMP v (s2.take n).length (s2.take n) = .ok a := by rw [hlw]; exact ha
+    exact ack_decode_wf v tPUBCOMP _ a hbw hlw2 ha'
+  rw [if_neg c7] at h
+  by_cases c8 : pt = tSUBSCRIBE
+  · rw [if_pos c8] at h
+    split at h
+    · cases h
+    · obtain ⟨hbw, hlw, hlw2, hf⟩ := hw h
+      obtain ⟨a, ha, rfl⟩ := map_ok hf
+      exact subscribe_decode_wf v _ a hbw hlw2 ha
+  rw [if_neg c8] at h
+  by_cases c9 : pt = tSUBACK
+  · rw [if_pos c9] at h
+    split at h
+    · cases h
+    · obtain ⟨hbw, hlw, hlw2, hf⟩ := hw h
+      obtain ⟨a, ha, rfl⟩ := map_ok hf
+      exact suback_decode_wf v _ a hbw hlw2 ha
+  rw [if_neg c9] at h
+  by_cases c10 : pt = tUNSUBSCRIBE
+  · rw [if_pos c10] at h
+    split at h
+    · cases h
+    · obtain ⟨hbw, hlw, hlw2, hf⟩ := hw h
+      obtain ⟨a, ha, rfl⟩ := map_ok hf
+      exact unsubscribe_decode_wf v _ a hbw hlw2 ha
+  rw [if_neg c10] at h
+  by_cases c11 : pt = tUNSUBACK
+  · rw [if_pos c11] at h
+    split at h
+    · cases h
+    · obtain ⟨hbw, hlw, hlw2, hf⟩ := hw h
+      obtain ⟨a, ha, rfl⟩ := map_ok hf
+      exact unsuback_decode_wf v hv _ a hbw hlw2 ha
+  rw [if_neg c11] at h
+  by_cases c12 : pt = tPINGREQ
+  · rw [if_pos c12] at h
+    split at h
+    · cases h
+    · split at h
+      · cases h
+      · simp only [runPlan, Except.ok.injEq] at h
+        subst h
+        trivial
+  rw [if_neg c12] at h
+  by_cases c13 : pt = tPINGRESP
+  · rw [if_pos c13] at h
+    split at h
+    · cases h
+    · split at h
+      · cases h
+      · simp only [runPlan, Except.ok.injEq] at h
+        subst h
+        trivial
+  rw [if_neg c13] at h
+  by_cases c14 : pt = tDISCONNECT
+  · rw [if_pos c14] at h
+    split at h
+    · cases h
+    · obtain ⟨hbw, hlw, hlw2, hf⟩ := hw h
+      obtain ⟨a, ha, rfl⟩ := map_ok hf
+      have ha' : unpackDisconnect v (s2.take n).length (s2.take n) = .ok a := by rw [hlw]; exact ha
+      exact disconnect_decode_wf v _ a hbw hlw2 ha'
+  rw [if_neg c14] at h
+  by_cases c15 : pt = tAUTH
+  · rw [if_pos c15] at h
+    split at h
+    · cases h
+    · split at h
+      · simp only [runPlan, Except.ok.injEq] at h
+        subst h
+        exact ⟨by simp, fun _ => rfl, fun l hl => by simp at hl, by simp [authBody]⟩
+      · obtain ⟨hbw, hlw, hlw2, hf⟩ := hw h
+        obtain ⟨a, ha, rfl⟩ := map_ok hf
+        exact auth_decode_wf _ a hbw hlw2 ha
+  rw [if_neg c15] at h
+  cases h
+
+/-- every packet `ReadPacket` returns is well-formed -/
+theorem readPacket_wf (v : Nat) (hv : v = v31 ∨ v = v311 ∨ v = v5) (bs : Bytes) (p : Packet) (hb : AllBytes bs)
+    (h : (readPacket v bs).res = .ok p) : WF v p := by
+  cases bs with
+  | nil => simp [readPacket] at h
+  | cons first s1 =>
+    simp only [readPacket] at h
+    cases hd : decVbi s1 with
+    | error e => rw [hd] at h; cases h
+    | ok r =>
+      obtain ⟨n, s2⟩ := r
+      rw [hd] at h
+      simp only at h
+      have hb1 := (allBytes_cons.mp hb).2
+      exact newPacket_wf _ _ n v hv s2 p (allBytes_decVbi hb1 hd) (decVbiAux_le s1 0 0 n s2 hd) h
+
+/-- `reencode_stable`: every accepted packet packs, and the packed bytes read back to the same packet -/
+theorem reencode_stable_all (v : Nat) (hv : v = v31 ∨ v = v311 ∨ v = v5) (bs : Bytes) (p : Packet) (hb : AllBytes bs)
+    (h : (readPacket v bs).res = .ok p) (ext : Bytes) :
+    ∃ out, pack p = .ok out ∧ readPacket v (out ++ ext) = { res := .ok p, rest := ext } :=
+  encode_decode_all v hv p (readPacket_wf v hv bs p hb h) ext
 
 end GmqttVerif.Codec
